@@ -98,6 +98,9 @@ C10_OutSize == IsEndOp => \A i \in 1..Len(Obs.out) : Obs.out[i].size > 0 /\ Obs.
 (* a "pair" line holds the normalised observations of the same step executed at offset 0 (a) and at the offsets (b) *)
 C12_ShiftInvariant == l > 1 /\ Obs.ev = "pair" => Obs.a = Obs.b
 
+(* ---- beyond the list: the counter algebra of the library's SNMP block (README "Monitoring") ---- *)
+Snmp_RetransIsSum == IsOp => Obs.snmp.retrans = Obs.snmp.lost + Obs.snmp.fastearly
+
 (* ---- C18 ---- *)
 C18_RtoBounds == IsEndOp => RtoBounds(Obs.st)
 C18_NoRetransOnCleanPath ==
